@@ -6,16 +6,20 @@ import IcontractModel.Basic
 namespace Icontract
 
 /-- `kwargs_from_call` (lines 56-101): `_ARGS`, `_KWARGS`, the defaults, then
-positionals **by index into all parameter names**, then the keywords. -/
+positionals by index into `param_names`, then the keywords. -/
 def bindPositionals (paramNames : List String) (args : List Id) (kw : Kwargs) : Kwargs :=
   match paramNames, args with
   | p :: ps, a :: as => bindPositionals ps as (kw.set p (.obj a))
   | _, _ => kw      -- surplus positionals are silently ignored; missing ones too
 
-def bindKeywords (kwargs : List (String × Id)) (kw : Kwargs) : Kwargs :=
+/-- the keywords of the call; one named like a positional-only parameter does not refer to that
+parameter (it lands in `**kwargs`) and is skipped -/
+def bindKeywords (posOnly : List String) (kwargs : List (String × Id)) (kw : Kwargs) : Kwargs :=
   match kwargs with
   | [] => kw
-  | (k, v) :: rest => bindKeywords rest (kw.set k (.obj v))
+  | (k, v) :: rest =>
+      if posOnly.contains k then bindKeywords posOnly rest kw
+      else bindKeywords posOnly rest (kw.set k (.obj v))
 
 def bindDefaults (kwdefaults : List (String × Id)) (kw : Kwargs) : Kwargs :=
   match kwdefaults with
@@ -23,8 +27,8 @@ def bindDefaults (kwdefaults : List (String × Id)) (kw : Kwargs) : Kwargs :=
   | (k, v) :: rest => bindDefaults rest (kw.set k (.obj v))
 
 def kwargsFromCall (paramNames : List String) (kwdefaults : List (String × Id))
-    (args : List Id) (kwargs : List (String × Id)) : Kwargs :=
-  bindKeywords kwargs
+    (args : List Id) (kwargs : List (String × Id)) (posOnly : List String := []) : Kwargs :=
+  bindKeywords posOnly kwargs
     (bindPositionals paramNames args
       (bindDefaults kwdefaults [("_ARGS", .tuple args), ("_KWARGS", .dict kwargs)]))
 
